@@ -669,6 +669,29 @@ func c05Run(r *core.Run, idx int, rng *rand.Rand) {
 	e := env.Static(env.Opts{WantSigned: c.Want})
 	mustRegister(e.W, c.A, "appA")
 	mustRegister(e.W, c.B, "appB")
+	// half of the cases are "primed": the genuine signed message is sent (and accepted) first on the same
+	// provider and the same registered SP instance, then the forged variant follows - anything remembered
+	// from a verified request must not vouch for different content
+	primed := (idx/40/len(c05Mutations))%2 == 1 || (idx >= 40*len(c05Mutations) && rng.Intn(2) == 0)
+	if primed && c.HasCert {
+		var pq, pb, pm string
+		if c.Binding == "redirect" || strings.Contains(c.Query, "SAMLRequest=") {
+			m := c.signedRedirect(c.Node, c.keyA(), c.Relay, c.HasRelay, c.Alg)
+			pm, pq = "GET", m.RawQuery()
+		} else {
+			sx := c.signedPost(c.Node, c.keyA(), spsim.XMLSignOpts{Alg: c.Alg})
+			args := []string{"SAMLRequest", spsim.B64([]byte(sx))}
+			if c.HasRelay {
+				args = append(args, "RelayState", c.Relay)
+			}
+			pm, pb = "POST", spsim.FormBody(args...)
+		}
+		pc := e.Do(env.Req{Method: pm, Path: env.PathSSO, Query: pq, Body: pb})
+		if pc.Accepted() {
+			r.Count("primed_with_accepted_genuine_request", 1)
+		}
+		c.Labels = append(c.Labels, "primed")
+	}
 	call := e.Do(env.Req{Method: c.Method, Path: env.PathSSO, Query: c.Query, Body: c.Body})
 	lbl := strings.Join(c.Labels, ",")
 	class := fmt.Sprintf("%s|ars=%s|cert=%v|want=%s|%s", lbl, c.ARS, c.HasCert, c.Want, c.Binding)
@@ -793,7 +816,8 @@ func init() {
 			r.Require("accepted_member_of_signed_set", 20)
 			r.Require("accepted_no_signature_needed", 20)
 			n := 40 * len(c05Mutations)
-			return []core.Workload{{Name: "forgeries", N: n*c.Pick(2, 3) + c.Pick(400, 20000), Fn: c05Run}}
+			r.Require("primed_with_accepted_genuine_request", 100)
+			return []core.Workload{{Name: "forgeries", N: n*c.Pick(2, 4) + c.Pick(400, 20000), Fn: c05Run}}
 		},
 	})
 }
